@@ -200,6 +200,10 @@ func (o gOp) String() string {
 		return fmt.Sprintf("List %s %s", o.Bucket, o.ListQ.Encode())
 	case "CreateBucket":
 		return "CreateBucket " + o.Bucket
+	case "DeleteBucket":
+		return "DeleteBucket " + o.Bucket
+	case "GetBucket":
+		return "GetBucket " + o.Bucket
 	}
 	return o.Kind
 }
@@ -250,6 +254,10 @@ func execG(w *GCSWorld, o gOp) gResp {
 	switch o.Kind {
 	case "CreateBucket":
 		h = w.CreateBucket(o.Bucket)
+	case "DeleteBucket":
+		h = w.Do(HReq{Method: "DELETE", Path: "/storage/v1/b/" + url.PathEscape(o.Bucket)})
+	case "GetBucket":
+		h = w.Do(HReq{Method: "GET", Path: "/storage/v1/b/" + url.PathEscape(o.Bucket)})
 	case "Upload":
 		switch o.Proto {
 		case "media":
@@ -409,6 +417,32 @@ func (m *gModel) step(op gOp, r gResp) (string, string) {
 		}
 		if m.Buckets[op.Bucket] == nil {
 			m.Buckets[op.Bucket] = map[string]*gObj{}
+		}
+	case "DeleteBucket":
+		// the bucket goes with everything in it (or, as the real service would for a bucket
+		// that still holds objects, the request is refused with 409 and nothing changes)
+		if m.Buckets[op.Bucket] == nil {
+			if r.Status != 404 {
+				return fail("missing-bucket", "deleting a bucket that does not exist must give 404")
+			}
+			return "", ""
+		}
+		if r.Status == 409 && len(m.Buckets[op.Bucket]) > 0 {
+			return "", ""
+		}
+		if !ok2xx(r.Status) {
+			return fail("valid-rejected", "bucket deletion failed: %s", shortVal(string(r.Body)))
+		}
+		delete(m.Buckets, op.Bucket)
+	case "GetBucket":
+		if m.Buckets[op.Bucket] == nil {
+			if r.Status != 404 {
+				return fail("missing-bucket", "a bucket that does not exist (never created, or deleted) must give 404")
+			}
+			return "", ""
+		}
+		if r.Status != 200 {
+			return fail("valid-rejected", "bucket metadata: %s", shortVal(string(r.Body)))
 		}
 	case "Upload":
 		b, n := op.Up.Bucket, op.Up.Name
